@@ -186,6 +186,36 @@ def rowsToProtocol (dflt : Rat) : List DoseRow → List Event → Except Err (Li
         | .ok acc' => rowsToProtocol dflt rs acc'
     | _, _ => rowsToProtocol dflt rs acc
 
+/-- `ProblemModellingController.set_data`: `self._dosing_regimens = None`, then — only if the
+    dataset has dose information (`dose_key` not `None` and the model supports dosing) — one
+    protocol per individual.  `data = none` is a dataset without dose information.  The regimens
+    held before (`_prev`) play no role. -/
+def setDataRegimens (dflt : Rat) (_prev : Option (List (String × List Event)))
+    (data : Option (List (String × List DoseRow))) :
+    Except Err (Option (List (String × List Event))) :=
+  match data with
+  | none => .ok none
+  | some inds =>
+    let rec go : List (String × List DoseRow) → Except Err (List (String × List Event))
+      | [] => .ok []
+      | (label, rows) :: rest =>
+        match rowsToProtocol dflt rows [] with
+        | .error e => .error e
+        | .ok evs => match go rest with
+          | .error e => .error e
+          | .ok r => .ok ((label, evs) :: r)
+    match go inds with
+    | .error e => .error e
+    | .ok r => .ok (some r)
+
+/-- a sequence of `set_data` calls on one controller -/
+def setDataRun (dflt : Rat) : Option (List (String × List Event)) →
+    List (Option (List (String × List DoseRow))) → Except Err (Option (List (String × List Event)))
+  | s, [] => .ok s
+  | s, d :: ds => match setDataRegimens dflt s d with
+    | .error e => .error e
+    | .ok s' => setDataRun dflt s' ds
+
 /-! ## model surgery -/
 
 /-- the fragment of `myokit.Expression` the surgeries build -/
